@@ -1,2 +1,40 @@
-From Cmr Require Import Base Det GraphModel.
-Theorem placeholder_C06 : True. Proof. exact I. Qed.
+(* Properties_C06.v — C06: network / conetwork recognition with a sign-correct digraph certificate. *)
+From Coq Require Import Permutation.
+From Cmr Require Import Base Det BaseProofs GraphModel GraphProofs.
+Local Open Scope Z_scope.
+
+(* Signed certificate soundness, every size: after reversing the arcs listed in rev, for every column j there is a
+   simple forest path p from the tail to the head of the j-th coforest arc such that row i is +1 iff forest arc i is
+   traversed forwardly on p, -1 iff backwardly, 0 iff it is not on p: M = M(D,T) including all signs. *)
+Theorem C06_certificate_sound : forall m n M G rev forest coforest,
+  check_network_cert m n M G rev forest coforest = true ->
+  exists T C,
+    graph_ok G = true /\
+    lookup_all (map (orient rev) (g_edges G)) forest = Some T /\ length T = m /\
+    lookup_all (map (orient rev) (g_edges G)) coforest = Some C /\ length C = n /\
+    NoDup (forest ++ coforest) /\
+    (forall e, In e (g_edges G) -> In (e_id e) (forest ++ coforest)) /\
+    ~ has_cycle T /\ acyclic T = true /\
+    network_spec m n M T C.
+Proof. exact check_network_cert_sound. Qed.
+Print Assumptions C06_certificate_sound.
+
+(* the signed matrix is uniquely determined by the certificate *)
+Theorem C06_matrix_determined : forall m n M M' G rev forest coforest,
+  check_network_cert m n M G rev forest coforest = true ->
+  check_network_cert m n M' G rev forest coforest = true ->
+  wf_mat m n M = true -> wf_mat m n M' = true -> M = M'.
+Proof. exact check_network_cert_functional. Qed.
+Print Assumptions C06_matrix_determined.
+
+(* in a forest the simple path between two nodes is unique (so "the" path direction is well defined) *)
+Theorem C06_path_unique : forall T x y p q,
+  acyclic T = true -> simple_path T x y p -> simple_path T x y q -> p = q.
+Proof. exact acyclic_path_unique. Qed.
+Print Assumptions C06_path_unique.
+
+Example C06_nonvacuous :
+  check_network_cert 2 1 [[1];[1]] tri []%list [0;1]%nat [2]%nat = true /\
+  check_network_cert 2 1 [[1];[-1]] tri []%list [0;1]%nat [2]%nat = false /\
+  check_network_cert 2 1 [[1];[-1]] tri [1%nat] [0;1]%nat [2]%nat = true.
+Proof. repeat split; vm_compute; reflexivity. Qed.
